@@ -21,7 +21,7 @@ VC_ND(uint16_t, u16)
 VC_ND(uint8_t, u8)
 VC_ND(int, int)
 VC_ND(long, long)
-VC_ND(bool, bool)
+static inline bool vc_nondet_bool(const char* name) { uint8_t vc_val; (void)name; return (vc_val & 1) != 0; }   /* a valid _Bool (0/1), not any byte */
 #define VC_ASSERT(c, txt) __CPROVER_assert((c), txt)
 #define VC_ASSUME(c) __CPROVER_assume(c)
 #endif /* VC_CBMC */
